@@ -601,160 +601,3 @@ Definition roundtrips_text (t : str) (n : N) : bool :=
 Definition rendered_centibytes (n : N) : Z := centibytes_of (render n).
 Definition accurate (n : N) : bool := accurate_text (render n) n.
 Definition roundtrips (n : N) : bool := roundtrips_text (render n) n.
-
-Fixpoint range_Z (k : nat) (from : Z) : list Z :=
-  match k with O => [] | S k' => from :: range_Z k' (from + 1) end.
-
-Definition grid : list N :=
-  all16 ++ [65536; 65537]%N ++
-  flat_map (fun k => [2 ^ k - 1; 2 ^ k; 2 ^ k + 1]%N) (map Z.to_N (range_Z 47 17)) ++
-  [18446744073709551615%N].
-
-Fixpoint sorted_by {A} (le : A -> A -> bool) (l : list A) : bool :=
-  match l with
-  | a :: (b :: _) as r => le a b && sorted_by le r
-  | _ => true
-  end.
-
-(* one pass, the text rendered once per size:
-   (n, accurate and (round trip or beyond parse_filesize's units), value) *)
-Definition grid_info (n : N) : N * bool * Z :=
-  let t := render n in
-  (n, accurate_text t n && ((1125899906842624 <=? n)%N || roundtrips_text t n), centibytes_of t).
-
-Definition info_le (a b : N * bool * Z) : bool := (fst (fst a) <? fst (fst b))%N && (snd a <=? snd b).
-
-Definition grid_check : bool :=
-  let infos := map grid_info grid in
-  forallb (fun i => snd (fst i)) infos && sorted_by info_le infos.
-
-Lemma grid_check_true : grid_check = true.
-Proof. vm_cast_no_check (eq_refl true). Qed.
-
-(* keep the kernel from unfolding the models when it re-checks the projections below *)
-Strategy opaque [render accurate_text roundtrips_text centibytes_of parse_filesize format_filesize].
-
-Lemma grid_info_ok n : In n grid -> accurate n = true /\ ((n < 1125899906842624)%N -> roundtrips n = true).
-Proof.
-  intros Hin. pose proof grid_check_true as H. unfold grid_check in H. cbv zeta in H.
-  apply andb_true_iff in H. destruct H as [H _]. rewrite forallb_forall in H.
-  specialize (H (grid_info n) (in_map grid_info grid n Hin)). cbn [grid_info fst snd] in H.
-  unfold grid_info in H. cbv zeta in H. cbn [fst snd] in H.
-  apply andb_true_iff in H. destruct H as [Ha Hr]. split; [exact Ha|].
-  intros Hlt. apply orb_true_iff in Hr. destruct Hr as [Hr|Hr]; [|exact Hr].
-  apply N.leb_le in Hr. lia.
-Qed.
-
-Theorem format_accurate_grid n : In n grid -> accurate n = true.
-Proof. intros H. apply (grid_info_ok n H). Qed.
-
-(* 2^50 = 1125899906842624: from 1 PiB on the rendering uses PiB / EiB, which parse_filesize
-   does not know (see roundtrip_fails_from_1PiB) *)
-Theorem format_roundtrip_grid n : In n grid -> (n < 2 ^ 50)%N -> roundtrips n = true.
-Proof. intros H. apply (grid_info_ok n H). Qed.
-
-Lemma sorted_by_Sorted {A} (le : A -> A -> bool) l :
-  sorted_by le l = true -> Sorted (fun a b => le a b = true) l.
-Proof.
-  induction l as [|a l IH]; intros H; [constructor|].
-  destruct l as [|b l]; [repeat constructor|].
-  cbn [sorted_by] in H. apply andb_true_iff in H. destruct H as [H1 H2].
-  constructor; [apply IH; exact H2|constructor; exact H1].
-Qed.
-
-Lemma StronglySorted_map_inv {A B} (f : A -> B) (R : B -> B -> Prop) l :
-  StronglySorted R (map f l) -> StronglySorted (fun a b => R (f a) (f b)) l.
-Proof.
-  induction l as [|a l IH]; intros H; [constructor|].
-  cbn [map] in H. inversion H as [|? ? Hs Hf]; subst. constructor; [apply IH; exact Hs|].
-  rewrite Forall_map in Hf. exact Hf.
-Qed.
-
-Lemma strongly_sorted_pairs (P : N -> N -> Prop) l :
-  StronglySorted (fun a b => (a < b)%N /\ P a b) l ->
-  forall a b, In a l -> In b l -> (a < b)%N -> P a b.
-Proof.
-  induction 1 as [|x l Hs IH Hf]; intros a b Ha Hb Hlt; [contradiction|].
-  rewrite Forall_forall in Hf.
-  destruct Ha as [<-|Ha], Hb as [<-|Hb].
-  - lia.
-  - apply (Hf b Hb).
-  - pose proof (Hf a Ha) as [Hxa _]. lia.
-  - now apply IH.
-Qed.
-
-Lemma StronglySorted_impl {A} (R R' : A -> A -> Prop) l :
-  (forall a b, R a b -> R' a b) -> StronglySorted R l -> StronglySorted R' l.
-Proof.
-  intros Himp. induction 1 as [|x l Hs IH Hf]; constructor; [exact IH|].
-  eapply Forall_impl; [|exact Hf]. intros b. apply Himp.
-Qed.
-
-Lemma grid_strongly_sorted :
-  StronglySorted (fun a b => (a < b)%N /\ rendered_centibytes a <= rendered_centibytes b) grid.
-Proof.
-  pose proof grid_check_true as H. unfold grid_check in H. cbv zeta in H.
-  apply andb_true_iff in H. destruct H as [_ H].
-  apply sorted_by_Sorted in H. apply Sorted_StronglySorted in H.
-  - apply StronglySorted_map_inv in H. revert H. apply StronglySorted_impl.
-    intros a b Hab. unfold info_le, grid_info in Hab. cbv zeta in Hab. cbn [fst snd] in Hab.
-    apply andb_true_iff in Hab. destruct Hab as [A1 A2]. apply N.ltb_lt in A1. apply Z.leb_le in A2.
-    split; assumption.
-  - intros a b c Hab Hbc. unfold info_le in *.
-    apply andb_true_iff in Hab. apply andb_true_iff in Hbc. destruct Hab as [A1 A2], Hbc as [B1 B2].
-    apply N.ltb_lt in A1, B1. apply Z.leb_le in A2, B2.
-    apply andb_true_iff. split; [apply N.ltb_lt|apply Z.leb_le]; lia.
-Qed.
-
-(* rendering is monotone in the size (value of the rendered text, in 1/100 byte) *)
-Theorem format_monotone_grid a b :
-  In a grid -> In b grid -> (a <= b)%N -> rendered_centibytes a <= rendered_centibytes b.
-Proof.
-  intros Ha Hb Hle. destruct (N.eq_dec a b) as [->|Hne]; [lia|].
-  apply (strongly_sorted_pairs (fun a b => rendered_centibytes a <= rendered_centibytes b) grid
-           grid_strongly_sorted a b Ha Hb). lia.
-Qed.
-
-Lemma small_in_grid n : (n < 65536)%N -> In n grid.
-Proof. intros H. unfold grid. apply in_or_app. left. apply (below_pow2_complete 16). exact H. Qed.
-
-(* the same three facts for EVERY size below 2^16 *)
-Theorem format_roundtrip_below_2_16 n : (n < 65536)%N -> accurate n = true /\ roundtrips n = true.
-Proof.
-  intros H. pose proof (small_in_grid n H) as Hin. split; [now apply format_accurate_grid|].
-  apply format_roundtrip_grid; [exact Hin|]. change (2 ^ 50)%N with 1125899906842624%N. lia.
-Qed.
-
-Theorem format_monotone_below_2_16 a b :
-  (a <= b)%N -> (b < 65536)%N -> rendered_centibytes a <= rendered_centibytes b.
-Proof. intros H1 H2. apply format_monotone_grid; try apply small_in_grid; lia. Qed.
-
-Lemma in_grid_dec n : existsb (N.eqb n) grid = true -> In n grid.
-Proof. intros H. apply existsb_exists in H. destruct H as [x [Hx E]]. apply N.eqb_eq in E. now subst. Qed.
-
-Example grid_members :
-  In 4294967295%N grid /\ In 4294967296%N grid /\ In 4294967297%N grid /\
-  In 9223372036854775809%N grid /\ In 18446744073709551615%N grid.
-Proof. repeat apply conj; apply in_grid_dec; vm_compute; reflexivity. Qed.
-
-Example grid_size : N.of_nat (length grid) = 65680%N.
-Proof. vm_compute. reflexivity. Qed.
-
-(* FINDING (why the round trip stops at 2^50): format_size renders PiB and EiB, which
-   parse_filesize cannot read back ("1pib" ends in "b": u64 rung, "1pi" is not a number) *)
-Example roundtrip_fails_from_1PiB :
-  render 1125899906842623 = s "1024.00TiB" /\ parse_filesize (s "1024.00TiB") = Some 1125899906842624%N /\
-  render 1125899906842624 = s "1PiB" /\ parse_filesize (s "1PiB") = None /\
-  render 18446744073709551615 = s "16EiB" /\ parse_filesize (s "16EiB") = None.
-Proof. vm_compute. repeat split; reflexivity. Qed.
-
-(* the +1 byte in [roundtrips] is needed: "1.04KiB" reads back as trunc(1064.96) = 1064 *)
-Example roundtrip_truncation_byte :
-  render 1070 = s "1.04KiB" /\ parse_filesize (s "1.04KiB") = Some 1064%N /\
-  accurate 1070 = true /\ roundtrips 1070 = true.
-Proof. vm_compute. repeat split; reflexivity. Qed.
-
-Example monotone_ex : rendered_centibytes 1023 = 102300 /\ rendered_centibytes 1024 = 102400 /\
-  rendered_centibytes 1029 = 102400 /\ rendered_centibytes 1030 = 103424 /\
-  rendered_centibytes 1048575 = 104857600 /\ rendered_centibytes 1048576 = 104857600.
-Proof. vm_compute. repeat split; reflexivity. Qed.
